@@ -166,6 +166,16 @@ func own(c *mon.Ctx, r *gen.Rand) {
 	if g := d.DecodeIso639AudioType(); g != at {
 		c.Fail("decode:iso639-audio-type", fmt.Sprintf("DecodeIso639AudioType = %#x, encoded %#x", g, at), wit{Case: "iso639", Body: mon.Hex(body), Detail: fmt.Sprint(g)})
 	}
+	{
+		// decoded values stay what they were when the caller re-uses the body buffer
+		kept := d.DecodeIso639LanguageCode()
+		for k := range body {
+			body[k] ^= 0x55
+		}
+		if kept != l {
+			c.Fail("decode:iso639-language-follows-buffer", fmt.Sprintf("a language code decoded earlier changed from %q to %q when the caller overwrote the descriptor body", l, kept), wit{Case: "iso639", Detail: kept})
+		}
+	}
 	c.Class(fmt.Sprintf("iso639/audio-type=%02x/entries=%d", at, len(body)/4))
 	// DVB extension descriptor carrying TTML subtitling: tag_extension 0x20, language, purpose(6) + TTS_suitability(2), ...
 	ext := byte(0x20)
@@ -188,6 +198,15 @@ func own(c *mon.Ctx, r *gen.Rand) {
 	}
 	if g := psi.NewPmtElementaryStream(0x06, 0x101, []psi.PmtDescriptor{psi.NewPmtDescriptor(0x0a, []byte("eng\x00")), d}).IsTTMLSubtitling(); g != (ext == 0x20) {
 		c.Fail("decode:stream-ttml", fmt.Sprintf("IsTTMLSubtitling = %v for tag extension %#x", g, ext), wit{Case: "ttml", Body: mon.Hex(body)})
+	}
+	{
+		kept := d.DecodeTTMLIso639LanguageCode()
+		for k := range body {
+			body[k] ^= 0x33
+		}
+		if kept != l {
+			c.Fail("decode:ttml-language-follows-buffer", fmt.Sprintf("a TTML language code decoded earlier changed from %q to %q when the caller overwrote the descriptor body", l, kept), wit{Case: "ttml", Detail: kept})
+		}
 	}
 	c.Class(fmt.Sprintf("ttml/purpose=%02x/ext20=%v", purpose, ext == 0x20))
 	// registration descriptor: format_identifier
@@ -280,7 +299,22 @@ func run(c *mon.Ctx) {
 		n := 2 + r.Intn(7)
 		codes := []byte{0x1b, 0x0f, 0x86, 0x03, 0x04, 0x11, 0x81, 0x87, 0x88, 0x02, 0x24, 0x15, 0x06}
 		for k := 0; k < n; k++ {
-			p.Streams = append(p.Streams, ref.ES{Type: codes[r.Intn(len(codes))], PID: 0x100 + k*7 + r.Intn(7)})
+			es := ref.ES{Type: codes[r.Intn(len(codes))], PID: 0x100 + k*7 + r.Intn(7)}
+			if k == 0 && r.Chance(4) {
+				es.PID = r.PickInt([]int{0, 1, 0x1fff, 0x1ffe}) // extreme PIDs
+			}
+			// descriptors whose decoded values are known: maximum bitrate, language, registration
+			v := uint32(r.Intn(1 << 21))
+			es.Descs = append(es.Descs, ref.Desc{Tag: 0x0e, Body: []byte{0xc0 | byte(v>>16), byte(v >> 8), byte(v)}})
+			if r.Bool() {
+				es.Descs = append(es.Descs, ref.Desc{Tag: 0x0a, Body: []byte{byte('a' + r.Intn(26)), byte('a' + r.Intn(26)), byte('a' + r.Intn(26)), byte(r.Intn(4))}})
+			}
+			p.Streams = append(p.Streams, es)
+		}
+		// put the streams in a random order (the ES loop need not be sorted by PID)
+		for k := len(p.Streams) - 1; k > 0; k-- {
+			j := r.Intn(k + 1)
+			p.Streams[k], p.Streams[j] = p.Streams[j], p.Streams[k]
 		}
 		pay := append([]byte{0}, p.Section()...)
 		m, err := psi.NewPMT(pay)
@@ -290,8 +324,37 @@ func run(c *mon.Ctx) {
 			return
 		}
 		gone := map[int]bool{}
+		// the caller appends to a descriptor list it was given: the other streams keep their descriptors
+		descsOK := func(when string) bool {
+			for i, es := range m.ElementaryStreams() {
+				_ = append(es.Descriptors(), psi.NewPmtDescriptor(0xfe, []byte{1, 2, 3}), psi.NewPmtDescriptor(0xfd, nil))
+				_ = i
+			}
+			k := 0
+			for _, es := range m.ElementaryStreams() {
+				for gone[p.Streams[k].PID] {
+					k++
+				}
+				w := p.Streams[k]
+				k++
+				ds := es.Descriptors()
+				want := uint64(uint32(w.Descs[0].Body[0]&0x1f)<<16|uint32(w.Descs[0].Body[1])<<8|uint32(w.Descs[0].Body[2])) * 400
+				if es.ElementaryPid() != w.PID || len(ds) != len(w.Descs) || ds[0].Tag() != 0x0e || es.MaxBitRate() != want ||
+					(len(w.Descs) > 1 && ds[1].DecodeIso639LanguageCode() != string(w.Descs[1].Body[:3])) {
+					c.Fail("decode:descriptors-changed-by-append", fmt.Sprintf("%s: after the caller appended to the descriptor lists it was given, stream %#x reports %d descriptors / bit rate %d (encoded: %d descriptors, bit rate %d)", when, w.PID, len(ds), es.MaxBitRate(), len(w.Descs), want),
+						wit{Case: "pmt descriptors " + when, Body: mon.Hex(pay)})
+					return false
+				}
+			}
+			return true
+		}
+		if !descsOK("freshly decoded") {
+			return
+		}
 		check := func(when string) bool {
-			for _, s := range p.Streams {
+			order := r.Perm(len(p.Streams)) // the first query may be for any stream
+			for _, oi := range order {
+				s := p.Streams[oi]
 				want := lags(s.Type) && !gone[s.PID]
 				if g := m.IsPidForStreamWherePresentationLagsEbp(s.PID); g != want {
 					c.Fail("streamtype:pmt-lags-by-pid-"+when, fmt.Sprintf("%s: IsPidForStreamWherePresentationLagsEbp(%#x) = %v; the stream has type %#02x (lags=%v), removed=%v", when, s.PID, g, s.Type, lags(s.Type), gone[s.PID]),
@@ -313,7 +376,7 @@ func run(c *mon.Ctx) {
 				}
 			}
 			m.RemoveElementaryStreams(rm)
-			if !check("after-removal") {
+			if !check("after-removal") || !descsOK("after removal") {
 				return
 			}
 		}
